@@ -6,6 +6,7 @@ import NurbsVerif.Lemmas.AssembleEnds
 import NurbsVerif.Lemmas.AssembleWF
 import NurbsVerif.Lemmas.LengthSamples
 import NurbsVerif.Lemmas.LengthEuclid
+import NurbsVerif.Lemmas.LengthRatMain
 import NurbsVerif.Lemmas.BasisPositiveHull
 
 /-!
@@ -743,5 +744,175 @@ example (num : ℕ) (hnum : 2 ≤ num) :
     simp only [List.length_cons, List.length_nil] at h1 h2
     obtain rfl | rfl : i = 3 ∨ i = 4 := by omega
     all_goals simp [fnOf]
+
+/-! ## Length bounds for RATIONAL curves: `length_curve` between the chord and the Cartesian control polygon
+
+`evalpts` of a NURBS curve are the PROJECTED points `project (curvePoint p U Pw u)` (`curveGrid true`;
+`Pw` the homogeneous control points `(x·w, w)`), and the control polygon a user sees (`ctrlpts`) is the
+polygon of the Cartesian control points `Pw.map project` (`P_i = Pw_i / w_i`).  Knot insertion acts on the
+homogeneous points; on the projected points it is again corner cutting, with the coefficient
+`α w_i / (α w_i + (1-α) w_{i-1}) ∈ [0, 1]` when all weights are positive. -/
+
+/-- **Projection of a convex combination of two homogeneous points with positive weights** (one step of
+    knot insertion, seen on the Cartesian points): the new weight is positive, the coefficient
+    `β = α w₁ / w_q` lies in `[0, 1]`, and the projected new point is `β · project H₁ + (1-β) · project H₀`. -/
+theorem projected_insertion_is_corner_cutting (d : ℕ) (H0 H1 Hq : List K) (a : K) (h0 : H0.length = d + 1)
+    (h1 : H1.length = d + 1) (hq : Hq.length = d + 1) (ha0 : 0 ≤ a) (ha1 : a ≤ 1) (w0 : 0 < H0.getD d 0)
+    (w1 : 0 < H1.getD d 0) (e : ∀ j, Hq.getD j 0 = a * H1.getD j 0 + (1 - a) * H0.getD j 0) :
+    0 < Hq.getD d 0 ∧ 0 ≤ a * H1.getD d 0 / Hq.getD d 0 ∧ a * H1.getD d 0 / Hq.getD d 0 ≤ 1 ∧
+    ∀ j, (project Hq).getD j 0 = a * H1.getD d 0 / Hq.getD d 0 * (project H1).getD j 0
+        + (1 - a * H1.getD d 0 / Hq.getD d 0) * (project H0).getD j 0 :=
+  project_comb d H0 H1 Hq a h0 h1 hq ha0 ha1 w0 w1 e
+
+/-- **Knot insertion does not lengthen the Cartesian control polygon of a rational curve**:
+    `helpers.knot_insertion` applied to the homogeneous points `Pw` (all weights positive) with `r` copies of
+    `u` in the span `k` (`U_k ≤ u < U_{k+1}`, `r + s ≤ p`), any degree, any seminorm on the `d` Cartesian
+    coordinates; all weights of the new net are positive. -/
+theorem insertion_does_not_lengthen_rational_control_polygon {N : List K → K} {d : ℕ} (hN : IsSeminorm d N)
+    (p : ℕ) (U : ℕ → K) (Pw : List (List K)) (u : K) (r s k : ℕ) (hP : NetOk (d + 1) Pw) (hpk : p ≤ k) (hk : k < Pw.length)
+    (hwt : ∀ i, i < Pw.length → 0 < (ptsGet Pw i).getD d 0)
+    (hm : Monotone U) (h1 : U k ≤ u) (h2 : u < U (k + 1)) (hrs : r + s ≤ p) :
+    (∀ i, i < (knotInsertion p U Pw u r s k).length → 0 < (ptsGet (knotInsertion p U Pw u r s k) i).getD d 0) ∧
+    polylineLength (distN N) ((knotInsertion p U Pw u r s k).map project) ≤ polylineLength (distN N) (Pw.map project) :=
+  knotInsertion_polygon_le_rat U u Pw k p s d hP hpk hk hN hm h1 h2 hwt r hrs
+
+/-- **No admissible sequence of knot insertions lengthens the Cartesian control polygon of a rational
+    curve** (requests as in `insert_sequence_does_not_lengthen_control_polygon`); the weights stay positive. -/
+theorem insert_sequence_does_not_lengthen_rational_control_polygon {N : List K → K} {d : ℕ} (hN : IsSeminorm d N) (p : ℕ)
+    (reqs : List (K × ℕ × ℕ)) (st : List K × List (List K)) (hC : CurveWF p (d + 1) st.1 st.2)
+    (hwt : ∀ i, i < st.2.length → 0 < (ptsGet st.2 i).getD d 0) (hok : ReqsOk p st reqs) :
+    (∀ i, i < (reqs.foldl (insStep p) st).2.length → 0 < (ptsGet (reqs.foldl (insStep p) st).2 i).getD d 0) ∧
+    polylineLength (distN N) ((reqs.foldl (insStep p) st).2.map project) ≤ polylineLength (distN N) (st.2.map project) :=
+  insert_sequence_polygon_le_rat hN p reqs st hC hwt hok
+
+/-- **The polyline through the projected points of a rational curve at ANY increasing parameters of the
+    closed domain is not longer than the Cartesian control polygon** – NURBS curve of degree `≥ 1`, all
+    weights positive; the right end `U_n` may be among the parameters if the curve is clamped there. -/
+theorem rational_polyline_le_control_polygon {N : List K → K} {d : ℕ} (hN : IsSeminorm d N) (p : ℕ) (hp : 1 ≤ p)
+    (Ul : List K) (Pw : List (List K)) (hC : CurveWF p (d + 1) Ul Pw)
+    (hwt : ∀ i, i < Pw.length → 0 < (ptsGet Pw i).getD d 0) (us : List K) (hsorted : us.Pairwise (· < ·))
+    (hdom : ∀ u ∈ us, fnOf Ul p ≤ u ∧ u ≤ fnOf Ul Pw.length)
+    (hend : fnOf Ul Pw.length ∈ us → ∀ i, Pw.length ≤ i → i < Pw.length + p → fnOf Ul i = fnOf Ul Pw.length) :
+    polylineLength (distN N) (us.map (fun u => project (curvePoint p (fnOf Ul) Pw u)))
+      ≤ polylineLength (distN N) (Pw.map project) :=
+  curve_polyline_le_polygon_rat hN p hp Ul Pw hC hwt us hsorted hdom hend
+
+/-- **The division in `project` is never by zero at the samples of `length_curve`**: for a rational curve
+    with positive weights, the homogeneous point at every parameter of `linspace(U_p, U_n, num)` has a
+    positive weight (every sample size, every tolerance constant). -/
+theorem length_curve_rational_samples_weight_positive (p d : ℕ) (Ul : List K) (Pw : List (List K))
+    (hC : CurveWF p (d + 1) Ul Pw) (hwt : ∀ i, i < Pw.length → 0 < (ptsGet Pw i).getD d 0) (num : ℕ) (tol : K) (u : K)
+    (hu : u ∈ linspace (fnOf Ul p) (fnOf Ul Pw.length) num tol) : 0 < (curvePoint p (fnOf Ul) Pw u).getD d 0 :=
+  length_curve_samples_weight_pos p d Ul Pw hC hwt num tol u hu
+
+/-- **`length_curve` of a rational curve is at least the chord between the first and the last sampled
+    (projected) point**, for every non-empty list of sample parameters – the lower bound that holds for
+    whatever the cached `evalpts` are (see `curve_samples_ge_chord`). -/
+theorem rational_curve_samples_ge_chord {N : List K → K} {d : ℕ} (hN : IsSeminorm d N) (p : ℕ) (Ul : List K)
+    (Pw : List (List K)) (hC : CurveWF p (d + 1) Ul Pw) (ks : List K) (hne : ks ≠ []) :
+    N (vsub (project (curvePoint p (fnOf Ul) Pw (ks.getD (ks.length - 1) 0)))
+        (project (curvePoint p (fnOf Ul) Pw (ks.getD 0 0))))
+      ≤ curveLength (distN N) true p (fnOf Ul) Pw ks :=
+  curveLength_ge_sample_chord_rat hN p Ul Pw hC ks hne
+
+/-- **The approximate length of a rational curve is never less than its end-to-end chord**: clamped NURBS
+    curve (`ClampedOk`), all weights positive (then every sampled weight is positive – first conjunct –, so
+    no projection divides by zero), samples at `linspace(U_p, U_n, num)`, at least two samples and a domain
+    longer than the tolerance constant; the chord is the one between the first and the last CARTESIAN
+    control point.  Model scope as for `length_curve_ge_chord` (whole-domain sample). -/
+theorem length_curve_rational_ge_chord {N : List K → K} {d : ℕ} (hN : IsSeminorm d N) (p : ℕ)
+    (Ul : List K) (Pw : List (List K)) (hC : CurveWF p (d + 1) Ul Pw)
+    (hwt : ∀ i, i < Pw.length → 0 < (ptsGet Pw i).getD d 0) (hcl : ClampedOk p (fnOf Ul) Pw.length)
+    (num : ℕ) (hnum : 2 ≤ num) (tol : K) (htol : tol < |fnOf Ul p - fnOf Ul Pw.length|) :
+    (∀ u ∈ linspace (fnOf Ul p) (fnOf Ul Pw.length) num tol, 0 < (curvePoint p (fnOf Ul) Pw u).getD d 0) ∧
+    N (vsub (project (ptsGet Pw (Pw.length - 1))) (project (ptsGet Pw 0)))
+      ≤ curveLength (distN N) true p (fnOf Ul) Pw (linspace (fnOf Ul p) (fnOf Ul Pw.length) num tol) :=
+  ⟨fun u hu => length_curve_samples_weight_pos p d Ul Pw hC hwt num tol u hu,
+   length_curve_ge_chord_rat hN p Ul Pw hC hcl num hnum tol htol⟩
+
+/-- **The approximate length of a rational curve is never more than the length of its Cartesian control
+    polygon**: `length_curve` of the projected points sampled at `linspace(U_p, U_n, num)` – every sample
+    size, every tolerance constant – for a NURBS curve of degree `≥ 1` with positive weights that is clamped
+    at the end; the polygon is the one through `P_i = Pw_i / w_i`.  (For a partially evaluated cache the
+    bound holds by `rational_polyline_le_control_polygon`.) -/
+theorem length_curve_rational_le_control_polygon {N : List K → K} {d : ℕ} (hN : IsSeminorm d N) (p : ℕ) (hp : 1 ≤ p)
+    (Ul : List K) (Pw : List (List K)) (hC : CurveWF p (d + 1) Ul Pw)
+    (hwt : ∀ i, i < Pw.length → 0 < (ptsGet Pw i).getD d 0)
+    (hend : ∀ i, Pw.length ≤ i → i < Pw.length + p → fnOf Ul i = fnOf Ul Pw.length) (num : ℕ) (tol : K) :
+    curveLength (distN N) true p (fnOf Ul) Pw (linspace (fnOf Ul p) (fnOf Ul Pw.length) num tol)
+      ≤ polylineLength (distN N) (Pw.map project) :=
+  length_curve_le_polygon_rat hN p hp Ul Pw hC hwt hend num tol
+
+/-- **Euclidean length of a rational curve, lower bound** (`K := ℝ`, Euclidean norm on the `d` Cartesian
+    coordinates): at least the Euclidean distance of the first and the last Cartesian control point. -/
+theorem length_curve_rational_ge_chord_euclid (p d : ℕ) (Ul : List ℝ) (Pw : List (List ℝ)) (hC : CurveWF p (d + 1) Ul Pw)
+    (hwt : ∀ i, i < Pw.length → 0 < (ptsGet Pw i).getD d 0) (hcl : ClampedOk p (fnOf Ul) Pw.length)
+    (num : ℕ) (hnum : 2 ≤ num) (tol : ℝ) (htol : tol < |fnOf Ul p - fnOf Ul Pw.length|) :
+    distN (euclidNorm d) (project (ptsGet Pw 0)) (project (ptsGet Pw (Pw.length - 1)))
+      ≤ curveLength (distN (euclidNorm d)) true p (fnOf Ul) Pw (linspace (fnOf Ul p) (fnOf Ul Pw.length) num tol) :=
+  (length_curve_rational_ge_chord (euclid_isSeminorm d) p Ul Pw hC hwt hcl num hnum tol htol).2
+
+/-- **Euclidean length of a rational curve, upper bound** (`K := ℝ`, Euclidean norm): at most the Euclidean
+    length of the Cartesian control polygon, for every sample size. -/
+theorem length_curve_rational_le_control_polygon_euclid (p : ℕ) (hp : 1 ≤ p) (d : ℕ) (Ul : List ℝ) (Pw : List (List ℝ))
+    (hC : CurveWF p (d + 1) Ul Pw) (hwt : ∀ i, i < Pw.length → 0 < (ptsGet Pw i).getD d 0)
+    (hend : ∀ i, Pw.length ≤ i → i < Pw.length + p → fnOf Ul i = fnOf Ul Pw.length) (num : ℕ) (tol : ℝ) :
+    curveLength (distN (euclidNorm d)) true p (fnOf Ul) Pw (linspace (fnOf Ul p) (fnOf Ul Pw.length) num tol)
+      ≤ polylineLength (distN (euclidNorm d)) (Pw.map project) :=
+  length_curve_rational_le_control_polygon (euclid_isSeminorm d) p hp Ul Pw hC hwt hend num tol
+
+/-! ### concrete values (ℓ¹ norm over ℚ): the clamped quadratic above with weights `1, 2, 1/2, 1` -/
+
+/-- the homogeneous points `(x·w, y·w, w)` project to the Cartesian polygon `(0,0),(1,2),(2,0),(3,1)`; chord
+    `4 <` approximate length `348/65 <` polygon length `8` (the non-rational curve with the same polygon
+    has length `11/2`: the weights matter) -/
+example : ([[0,0,1],[2,4,2],[1,0,1/2],[3,1,1]] : List (List ℚ)).map project = [[0,0],[1,2],[2,0],[3,1]] ∧
+    curveLength (distN l1norm) true 2 (fnOf ([0,0,0,1/2,1,1,1] : List ℚ)) [[0,0,1],[2,4,2],[1,0,1/2],[3,1,1]]
+      (linspace 0 1 5 (1/10000000)) = 348/65 ∧
+    polylineLength (distN l1norm) (([[0,0,1],[2,4,2],[1,0,1/2],[3,1,1]] : List (List ℚ)).map project) = 8 := by
+  decide +kernel
+
+/-- inserting `1/4` once into the homogeneous net cuts the Cartesian corner `(1,2)` with the weighted
+    coefficients: the Cartesian polygon gets strictly shorter (`100/13 < 8`), the new weights `3/2, 13/8`
+    are positive -/
+example : knotInsertion 2 (fnOf ([0,0,0,1/2,1,1,1] : List ℚ)) [[0,0,1],[2,4,2],[1,0,1/2],[3,1,1]] (1/4) 1 0 2
+      = [[0,0,1],[1,2,3/2],[7/4,3,13/8],[1,0,1/2],[3,1,1]] ∧
+    (knotInsertion 2 (fnOf ([0,0,0,1/2,1,1,1] : List ℚ)) [[0,0,1],[2,4,2],[1,0,1/2],[3,1,1]] (1/4) 1 0 2).map project
+      = [[0,0],[2/3,4/3],[14/13,24/13],[2,0],[3,1]] ∧
+    polylineLength (distN l1norm)
+      ((knotInsertion 2 (fnOf ([0,0,0,1/2,1,1,1] : List ℚ)) [[0,0,1],[2,4,2],[1,0,1/2],[3,1,1]] (1/4) 1 0 2).map project)
+      = 100/13 := by
+  decide +kernel
+
+/-- the hypotheses of `length_curve_rational_le_control_polygon` / `length_curve_rational_ge_chord` hold for that
+    NURBS curve (weights not all equal); both theorems applied -/
+example : l1norm (vsub (project (ptsGet ([[0,0,1],[2,4,2],[1,0,1/2],[3,1,1]] : List (List ℚ)) 3))
+        (project (ptsGet ([[0,0,1],[2,4,2],[1,0,1/2],[3,1,1]] : List (List ℚ)) 0)))
+      ≤ curveLength (distN l1norm) true 2 (fnOf ([0,0,0,1/2,1,1,1] : List ℚ)) [[0,0,1],[2,4,2],[1,0,1/2],[3,1,1]]
+          (linspace (fnOf ([0,0,0,1/2,1,1,1] : List ℚ) 2) (fnOf ([0,0,0,1/2,1,1,1] : List ℚ) 4) 5 (1/10000000)) ∧
+    curveLength (distN l1norm) true 2 (fnOf ([0,0,0,1/2,1,1,1] : List ℚ)) [[0,0,1],[2,4,2],[1,0,1/2],[3,1,1]]
+      (linspace (fnOf ([0,0,0,1/2,1,1,1] : List ℚ) 2) (fnOf ([0,0,0,1/2,1,1,1] : List ℚ) 4) 5 (1/10000000))
+    ≤ polylineLength (distN l1norm) (([[0,0,1],[2,4,2],[1,0,1/2],[3,1,1]] : List (List ℚ)).map project) := by
+  have hC : CurveWF 2 (2 + 1) ([0,0,0,1/2,1,1,1] : List ℚ) [[0,0,1],[2,4,2],[1,0,1/2],[3,1,1]] :=
+    { mono := mono_of_pairwise _ (by decide +kernel), len := by simp, pn := by simp, last := by decide +kernel,
+      net := by intro pt hpt; simp at hpt; rcases hpt with h | h | h | h <;> simp [h] }
+  have hwt : ∀ i, i < ([[0,0,1],[2,4,2],[1,0,1/2],[3,1,1]] : List (List ℚ)).length →
+      0 < (ptsGet ([[0,0,1],[2,4,2],[1,0,1/2],[3,1,1]] : List (List ℚ)) i).getD 2 0 := by
+    intro i hi
+    simp only [List.length_cons, List.length_nil] at hi
+    obtain rfl | rfl | rfl | rfl : i = 0 ∨ i = 1 ∨ i = 2 ∨ i = 3 := by omega
+    all_goals decide +kernel
+  have hstop : ∀ i, ([[0,0,1],[2,4,2],[1,0,1/2],[3,1,1]] : List (List ℚ)).length ≤ i →
+      i < ([[0,0,1],[2,4,2],[1,0,1/2],[3,1,1]] : List (List ℚ)).length + 2 →
+      fnOf ([0,0,0,1/2,1,1,1] : List ℚ) i = fnOf ([0,0,0,1/2,1,1,1] : List ℚ) ([[0,0,1],[2,4,2],[1,0,1/2],[3,1,1]] : List (List ℚ)).length := by
+    intro i h1 h2
+    simp only [List.length_cons, List.length_nil] at h1 h2
+    obtain rfl | rfl : i = 4 ∨ i = 5 := by omega
+    all_goals decide +kernel
+  refine ⟨(length_curve_rational_ge_chord (l1norm_is_seminorm 2) 2 _ _ hC hwt ⟨?_, hstop, by decide +kernel⟩ 5 (by omega) _
+    (by decide +kernel)).2, length_curve_rational_le_control_polygon (l1norm_is_seminorm 2) 2 (by omega) _ _ hC hwt hstop 5 _⟩
+  intro i h1 h2
+  obtain rfl | rfl : i = 1 ∨ i = 2 := by omega
+  all_goals decide +kernel
 
 end C18
